@@ -189,17 +189,11 @@ example : faultState { exJob with zipMember := some 8 }.cfg exFSzip 5 [0, 1] = s
 
 /-! ## the `tmpdir=` argument: the temp file lives in a directory supplied by the caller -/
 
-/-- `atomic_write(path, tmpdir=D)` **as coded** ends with `shutil.rmtree(D)`: after a SUCCESSFUL write every
-path under the caller's directory is gone — whatever the caller kept there. -/
-theorem tmpdir_route_counter (j : Job) (fs : FS) (h : WFtmp j.cfg fs) (q : Path) (hq : under j.cfg.tmpdir q = true) :
-    (exec fs (programTmp j.cfg .rmtreeDir)).2 = none ∧ (exec fs (programTmp j.cfg .rmtreeDir)).1 q = none := by
-  rw [exec_programTmp_rmtree j.cfg fs h]; simp [hq]
-
-/-- **repaired** (only the temp FILE is removed when the directory was supplied by the caller,
-fixes/C19-atomic-write-keeps-caller-tmpdir.patch): a complete write leaves exactly the new content at the
-destination, no temp file, and every other path — in particular everything else in the caller's
-directory — untouched. -/
-theorem tmpdir_route_repaired (j : Job) (fs : FS) (h : WFtmp j.cfg fs) :
+/-- **`atomic_write(path, tmpdir=D)` as it is now** (after 9c9e074c9: only the temp FILE is removed when the
+directory is the caller's — `programTmp … .unlinkFile` is THE model of this route): a complete write leaves
+exactly the new content at the destination, no temp file, and every other path — in particular everything
+else in the caller's directory — untouched. -/
+theorem write_completes_tmpdir (j : Job) (fs : FS) (h : WFtmp j.cfg fs) :
     (exec fs (programTmp j.cfg .unlinkFile)).2 = none ∧
     (exec fs (programTmp j.cfg .unlinkFile)).1 j.cfg.dest = some (.file j.cfg.newData) ∧
     (exec fs (programTmp j.cfg .unlinkFile)).1 j.cfg.tmpfile = none ∧
@@ -226,40 +220,32 @@ theorem every_prefix_is_a_crash_point (var : Variant) (idOf : Nat → Id) (app :
     ∃ j p, (runOps var idOf app s0 inputs).take k = crashOps var idOf app s0 inputs j p :=
   take_runOps var idOf app s0 inputs k
 
-/-- **Repaired store write** (md5 file, then record file, each put in place by one rename — `atomic_write` —
-fixes/C19-datastore-atomic-record.patch): for every initial store, every app, inputs with distinct
-identifiers, and EVERY crash point inside or between record writes, interrupt + complete re-run ends
-with the same store (record, not-completed record and md5 file of every identifier) as an uninterrupted run. -/
+/-- **The store write as it is now** (`DataStoreDirectory._write` after 8ee96b6d1: md5 file, then record file, each
+put in place by one rename through `atomic_write`; `StoreWrite.Variant.atomicMd5First` is THE model): for
+every initial store, every app, inputs with distinct identifiers, and EVERY crash point inside or between
+record writes, interrupt + complete re-run ends with the same store (record, not-completed record and md5
+file of every identifier) as an uninterrupted run. -/
 theorem resume_same_store_fine (idOf : Nat → Id) (app : Nat → Val) (s0 : FStore) (inputs : List Nat)
     (hn : (inputs.map idOf).Nodup) (j p : Nat) (i : Id) :
     resumed .atomicMd5First idOf app s0 inputs j p i = uninterrupted .atomicMd5First idOf app s0 inputs i :=
   resume_pointwise .atomicMd5First idOf app s0 inputs hn j p (fun c v t _ => cell_resume_atomic c v t) i
 
-/-- **The store as coded** (`DataStoreDirectory._write`: create the record file, fill it, create the md5 file,
-fill it — plain `open`): the same holds only for crash points at record boundaries. -/
-theorem resume_same_store_fine_partial (idOf : Nat → Id) (app : Nat → Val) (s0 : FStore) (inputs : List Nat)
-    (hn : (inputs.map idOf).Nodup) (j p : Nat) (hp : p = 0 ∨ 4 ≤ p) (i : Id) :
-    resumed .inPlace idOf app s0 inputs j p i = uninterrupted .inPlace idOf app s0 inputs i :=
-  resume_pointwise .inPlace idOf app s0 inputs hn j p
-    (fun c v t ht => cell_resume_inPlace_boundary c v t (ht hp)) i
+/-- …stated over every prefix `k` of the file-operation sequence of the run. -/
+theorem resume_same_store_every_prefix (idOf : Nat → Id) (app : Nat → Val) (s0 : FStore) (inputs : List Nat)
+    (hn : (inputs.map idOf).Nodup) (k : Nat) (i : Id) :
+    let s1 := StoreWrite.exec s0 ((runOps .atomicMd5First idOf app s0 inputs).take k)
+    StoreWrite.exec s1 (runOps .atomicMd5First idOf app s1 inputs) i = uninterrupted .atomicMd5First idOf app s0 inputs i := by
+  obtain ⟨j, p, e⟩ := take_runOps .atomicMd5First idOf app s0 inputs k
+  simp only [e]
+  exact resume_same_store_fine idOf app s0 inputs hn j p i
 
-/- FULL STATEMENT (not proved): `resume_same_store_fine_partial` without `hp`.  False for the code as it is:
-   `resume_same_store_fine_counter` (finding C19-datastore-record-written-in-place, the auditor's witness)
-   and, one step later, the md5 finding. -/
-
-/-- the auditor's witness: one input, killed after its record file was CREATED (p = 1): the empty file
-counts as completed, the re-run skips it, the record stays empty for ever; killed before the md5 file is
-created (p = 2): the record is complete but its md5 is never written. -/
-theorem resume_same_store_fine_counter :
+example :
     let idOf : Nat → Id := fun m => m
-    let app : Nat → Val := fun m => .ok ⟨1, m, some m⟩
+    let app : Nat → Val := fun m => if m = 8 then .nc ⟨.error, 1, .exc 1, some 8⟩ else .ok ⟨1, m, some m⟩
     let s0 : FStore := fun _ => Cell.none
-    (resumed .inPlace idOf app s0 [7] 0 1 7).data = .empty ∧
-    (uninterrupted .inPlace idOf app s0 [7] 7).data = .full (.ok ⟨1, 7, some 7⟩) ∧
-    (resumed .inPlace idOf app s0 [7] 0 2 7).md5 = .absent ∧
-    (uninterrupted .inPlace idOf app s0 [7] 7).md5 = .full (.ok ⟨1, 7, some 7⟩) ∧
-    (resumed .atomicMd5First idOf app s0 [7] 0 1 7) = (uninterrupted .atomicMd5First idOf app s0 [7] 7) := by
-  decide
+    resumed .atomicMd5First idOf app s0 [7, 8, 9] 1 1 8 = uninterrupted .atomicMd5First idOf app s0 [7, 8, 9] 8 ∧
+    (uninterrupted .atomicMd5First idOf app s0 [7, 8, 9] 8).nc = .full (app 8) ∧
+    (StoreWrite.exec s0 (crashOps .atomicMd5First idOf app s0 [7, 8, 9] 1 1) 8).nc = .absent := by decide
 
 /-! ## historical variants (NOT the current code)
 
@@ -318,6 +304,36 @@ theorem historical_handlers_witness :
     (faultState c fs 4 c.dest = some (.file [5]) ∧ faultState c fs 4 c.tmpdir = some .dir) ∧
     faultState { c with withBlock := false } fs 2 c.tmpdir = some .dir ∧
     faultState { c with bodyUnlink := true, closeInBody := true } fs 2 c.dest = none := by
+  decide
+
+
+/-- `atomic_write(path, tmpdir=D)` before 9c9e074c9 ended with `shutil.rmtree(D)`: after a SUCCESSFUL write every
+path under the caller's directory was gone — whatever the caller kept there. -/
+theorem historical_tmpdir_route_removed_callers_dir (j : Job) (fs : FS) (h : WFtmp j.cfg fs) (q : Path)
+    (hq : under j.cfg.tmpdir q = true) :
+    (exec fs (programTmp j.cfg .rmtreeDir)).2 = none ∧ (exec fs (programTmp j.cfg .rmtreeDir)).1 q = none := by
+  rw [exec_programTmp_rmtree j.cfg fs h]; simp [hq]
+
+/-- the store write before 8ee96b6d1 (create the record file, fill it, create the md5 file, fill it — plain `open`):
+interrupt + re-run gave the uninterrupted store only for crash points at record boundaries… -/
+theorem historical_store_write_in_place_boundaries (idOf : Nat → Id) (app : Nat → Val) (s0 : FStore) (inputs : List Nat)
+    (hn : (inputs.map idOf).Nodup) (j p : Nat) (hp : p = 0 ∨ 4 ≤ p) (i : Id) :
+    resumed .inPlace idOf app s0 inputs j p i = uninterrupted .inPlace idOf app s0 inputs i :=
+  resume_pointwise .inPlace idOf app s0 inputs hn j p
+    (fun c v t ht => cell_resume_inPlace_boundary c v t (ht hp)) i
+
+/-- …and not inside a record write (the auditor's witness): killed after the record file was CREATED (p = 1) the empty
+file counted as completed and stayed empty for ever; killed before the md5 file was created (p = 2) the md5 was never
+written; the current variant is right at the same points. -/
+theorem historical_store_write_in_place_witness :
+    let idOf : Nat → Id := fun m => m
+    let app : Nat → Val := fun m => .ok ⟨1, m, some m⟩
+    let s0 : FStore := fun _ => Cell.none
+    (resumed .inPlace idOf app s0 [7] 0 1 7).data = .empty ∧
+    (uninterrupted .inPlace idOf app s0 [7] 7).data = .full (.ok ⟨1, 7, some 7⟩) ∧
+    (resumed .inPlace idOf app s0 [7] 0 2 7).md5 = .absent ∧
+    (uninterrupted .inPlace idOf app s0 [7] 7).md5 = .full (.ok ⟨1, 7, some 7⟩) ∧
+    (resumed .atomicMd5First idOf app s0 [7] 0 1 7) = (uninterrupted .atomicMd5First idOf app s0 [7] 7) := by
   decide
 
 end CogentModel.C19
